@@ -2,7 +2,7 @@
 
 REGISTRY = {
     "C01": {
-        "modules": ["contracts.cas_kernel"],
+        "modules": ["contracts.cas_kernel", "contracts.cas_trees"],
         "category": "other",
         "explanation": "contract-based verification of the real code (symx): proof-level obligations for the constant kernel at every width, bounded symbolic verification for expression trees",
         "trusted_base": ["z3 5.1 (in-process)", "cvc5 1.0.3 (fallback)", "CPython 3.12 data-model dispatch", "specs/refsem.py (reference bit-vector semantics)"],
